@@ -71,12 +71,11 @@ pub fn gen_case(verif_seed: u64, idx: u64) -> WalReplay {
                 3 => (0, rng.below(3000) as usize),
                 4 => (rng.below(6000) as usize, rng.below(6000) as usize),
                 5 => {
-                    // close to one block. Open finding W1: sizes between (block - 2 headers) and the
-                    // advertised maximum are rejected and leave the in-memory log inconsistent until
-                    // the next force, so the generator stays 300 bytes below the block size.
-                    let total = BLOCK - 300 - rng.below(600) as usize;
+                    // close to one block, on both sides of the advertised maximum record size: a record
+                    // over it must be refused without any effect on the log (finding W1, repaired)
+                    let total = BLOCK - rng.below(900) as usize;
                     let u = rng.below(total as u64 / 2) as usize;
-                    (u, (total - u).min(40000))
+                    (u, total - u)
                 }
                 6 => (rng.below(20000) as usize, rng.below(20000) as usize),
                 _ => (rng.below(1500) as usize, 0),
